@@ -96,6 +96,9 @@ def domain(E):
     if t == "rotate":
         around = param(E["around"]) if E.get("around") else None
         form = E.get("form", "angles")
+        if form == "matrix3":         # 3-D: the rotation matrix itself (from_angles is 2-D only)
+            M = torch.tensor(rg._f32(rg.euler_matrix(E["euler"])), dtype=torch.float32)
+            return D.Rotate(domain(E["a"]), M, rotate_around=around)
         if form == "angles":
             return D.Rotate.from_angles(domain(E["a"]), param(E["angle"], True), rotate_around=around)
         if form == "matrix":          # constant matrix (documented: array_like)
